@@ -320,6 +320,14 @@ def matches(observed, version):
                 "=") and np.array_equal(got, version))
 
 
+def absent_part(devs, points):
+    """the deviations that are truthful 'absent' answers (ENOENT on a
+    probe), as opposed to I/O failures"""
+    return {k: d for k, d in devs.items()
+            if d == ("errno", errno.ENOENT) and k < len(points)
+            and points[k][0] in ("stat", "open-r")}
+
+
 def judge(col, case, scn, ref, run, devs):
     """oracles A (fault) and B (kill) on one deviating run"""
     ok = True
@@ -352,10 +360,10 @@ def judge(col, case, scn, ref, run, devs):
             # truthful "absent" answer of the environment, not an I/O
             # failure: whatever the operation then does is judged by the
             # data oracles below only
-            truthful_absent = all(
-                d == ("errno", errno.ENOENT)
-                and run["points"][k][0] in ("stat", "open-r")
-                for k, d in devs.items() if k < len(run["points"]))
+            # (with two deviations the effect of the real failure cannot be
+            # separated from the effect of the "absent" answer, so the check
+            # is skipped as soon as one such answer is present)
+            truthful_absent = len(absent_part(devs, run["points"])) > 0
             if not same and not truthful_absent and run["applied"]:
                 bad("fault/returned-normally-after-an-io-failure/%s" % (
                     "store" if is_store else "fetch"),
@@ -422,32 +430,43 @@ def explore(col, scn, tier):
     col.extra("points", len(pts))
     singles = [(k, a) for k in range(len(pts))
                for a in iosim.menu_for(pts[k])]
-    runs = [{k: a} for k, a in singles]
-    if tier == "thorough":
-        for k1, a1 in singles:
-            if a1[0].startswith("kill"):
-                continue
-            for k2 in range(k1 + 1, len(pts)):
-                for a2 in iosim.menu_for(pts[k2]):
-                    if a2[0] in ("short",) and a1[0] == "short":
-                        continue
-                    runs.append({k1: a1, k2: a2})
-    for devs in runs:
+    nruns = 0
+
+    def one(devs, prefix_pts):
+        """execute, check the replayed prefix, judge"""
+        nonlocal nruns
+        nruns += 1
         case = dict(case0, deviations={str(k): list(a)
                                        for k, a in devs.items()})
         run = execute(scn, devs)
-        k0 = min(devs)
-        if run["points"][:k0 + 1] != pts[:k0 + 1]:
+        k_last = max(devs)
+        if run["points"][:k_last + 1] != prefix_pts[:k_last + 1] and \
+                len(run["applied"]) == len(devs):
             raise RuntimeError("prefix divergence: %r vs %r" % (
-                run["points"][:k0 + 1], pts[:k0 + 1]))
-        if not run["applied"]:
+                run["points"][:k_last + 1], prefix_pts[:k_last + 1]))
+        if len(run["applied"]) < len(devs):
             col.ev(1, 1, "deviation-not-reached")
-            continue
+            return run
         good = judge(col, case, scn, ref, run, devs)
         killed = run["outcome"][0] == "killed"
         col.ev(1, 1, ("kill-" if killed else "fault-")
                + ("ok" if good else "bad"))
-    col.extra("deviating_runs", len(runs))
+        return run
+
+    for k1, a1 in singles:
+        run1 = one({k1: a1}, pts)
+        if tier != "thorough" or a1[0].startswith("kill"):
+            continue
+        # bound 2: the second deviation is placed at every later point of
+        # THIS run (points created after the first deviation, e.g. the retry
+        # after a short write, are discovered here)
+        pts1 = run1["points"]
+        for k2 in range(k1 + 1, len(pts1)):
+            for a2 in iosim.menu_for(pts1[k2]):
+                if a2[0] == "short" and a1[0] == "short":
+                    continue
+                one({k1: a1, k2: a2}, pts1)
+    col.extra("deviating_runs", nruns)
 
 
 def units(tier):
